@@ -4,6 +4,7 @@ import (
 	"bytes"
 	"fmt"
 	"testing"
+	"time"
 
 	"pgregory.net/rapid"
 
@@ -28,6 +29,11 @@ type c01Case struct {
 	// message must arrive whole all the same (bare LFs end a stretch as far
 	// as the limiter is concerned, CRLF is not required).
 	LineLimit int `json:"line_limit,omitempty"`
+	// PauseAt > 0: the server has a 15 ms WriteTimeout (and no read timeout);
+	// the client sends the first PauseAt octets, waits 50 ms of wall-clock
+	// time and sends the rest. When segments arrive has no bearing on the
+	// result; time is only the trigger, nothing is armed on a correct server.
+	PauseAt int `json:"pause_at,omitempty"`
 }
 
 // maxStretch is the length of the longest run of octets that ends in LF (the
@@ -75,15 +81,26 @@ func c01Run(c c01Case) Verdict {
 		cfg.MaxMessageBytes = int64(c.LimitAt)
 	}
 	over := cfg.MaxMessageBytes > 0 && int64(len(want)) > cfg.MaxMessageBytes
+	pause := c.PauseAt > 0 && c.PauseAt < len(stream)
+	if pause {
+		cfg.WriteTimeoutMs = 15
+	}
 	script := harness.Script{LMTPSession: c.Mode == 2,
-		DefaultData: &harness.DataPlan{Read: harness.ReadPlan{Sizes: c.Reads, Limit: -1}, Honest: true}}
+		DefaultData: &harness.DataPlan{Read: harness.ReadPlan{Sizes: c.Reads, Limit: -1, Retry: 2}, Honest: true}}
 	r := harness.NewRig(cfg, script)
 	w, _ := r.Dial()
 	if _, e := openData(w, cfg.LMTP, 1); e != "" {
 		w.Finish()
 		return Verdict{Inconclusive: e}
 	}
-	w.SendCuts(stream, c.Cuts)
+	if pause {
+		w.Send(stream[:c.PauseAt])
+		w.WaitQuiet()
+		time.Sleep(50 * time.Millisecond)
+		w.Send(stream[c.PauseAt:])
+	} else {
+		w.SendCuts(stream, c.Cuts)
+	}
 	_, fin := w.Finish()
 	if !fin {
 		return finishFail(w)
@@ -110,6 +127,9 @@ func c01Run(c c01Case) Verdict {
 	if len(stream) > 4096 {
 		v.Classes = append(v.Classes, "longer_than_bufio")
 	}
+	if pause {
+		v.Classes = append(v.Classes, "paused_past_write_timeout")
+	}
 	if c.LineLimit > 0 && len(stream) > c.LineLimit {
 		v.Classes = append(v.Classes, "line_limit_on")
 		if _, lf := hasBareCRLF(stream); lf {
@@ -131,6 +151,11 @@ func c01Run(c c01Case) Verdict {
 		v.Classes = append(v.Classes, "over_size_limit")
 		if int64(len(rec.Bytes)) > cfg.MaxMessageBytes || !bytes.HasPrefix(want, rec.Bytes) {
 			return failf("over-limit-octets", "limit %d: backend read %s, which is not a prefix (within the limit) of the message %s", cfg.MaxMessageBytes, q(rec.Bytes), q(want))
+		}
+		for _, rr := range rec.AfterErr {
+			if rr.N != 0 || rr.Err == "" || rr.Err == "EOF" {
+				return failf("over-limit-not-sticky", "limit %d: after the reader failed (%q) another Read returned (%d, %q)", cfg.MaxMessageBytes, rec.ErrStr, rr.N, rr.Err)
+			}
 		}
 		if rec.EOF {
 			return failf("over-limit-eof", "limit %d: reader reported end-of-file after %s although the message is %s (stream %s)", cfg.MaxMessageBytes, q(rec.Bytes), q(want), q(stream))
@@ -195,6 +220,10 @@ func c01Gen(t *rapid.T) c01Case {
 			c.LimitAt = genLimitBelow(t, want, "limit_at")
 		}
 	}
+	// a few paused transfers (each costs its pause in wall-clock time)
+	if len(stream) > 2 && rapid.IntRange(0, 999).Draw(t, "pause")%50 == 7 {
+		c.PauseAt = rapid.IntRange(1, len(stream)-1).Draw(t, "pause_at")
+	}
 	if rapid.IntRange(0, 2).Draw(t, "line_limit") == 0 {
 		c.LineLimit = maxStretch(stream) + rapid.IntRange(0, 2).Draw(t, "line_slack")
 		if c.LineLimit < 32 {
@@ -254,7 +283,7 @@ func c01LimitVariants(word []byte, read int) []c01Case {
 
 func TestC01(t *testing.T) {
 	registerAll()
-	st.Rule = "cases = (DATA octet stream, segmentation, backend read sizes, mode, size limit above/at/below the message length, line limit no smaller than the longest LF-delimited stretch); exhaustive part: all words over {'.',CR,LF,'x'} up to the length bound, each closed with the shortest legal end marker, the shorter ones also under every size limit from 1 to their length; non-trivial = body has a line-start dot, a bare CR, a bare LF or an end-marker look-alike; distinct = hash of the whole case"
+	st.Rule = "cases = (DATA octet stream, segmentation, backend read sizes, mode, size limit above/at/below the message length, line limit no smaller than the longest LF-delimited stretch, optionally a pause longer than the server's WriteTimeout in mid-message); exhaustive part: all words over {'.',CR,LF,'x'} up to the length bound, each closed with the shortest legal end marker, the shorter ones also under every size limit from 1 to their length; non-trivial = body has a line-start dot, a bare CR, a bare LF or an end-marker look-alike; distinct = hash of the whole case"
 	if !regress(t, "C01") {
 		return
 	}
